@@ -337,6 +337,17 @@ WOPNFile *WOPN_LoadBankFromMem(void *mem, size_t length, int *error)
     bankslots_sizes[1] = count_percussive_banks;
     bankslots[1] = outFile->banks_percussive;
 
+    if(version < 2)
+    {/* Version 1 has no blank marker: the place-holder bank of a zero count reads as saving and loading it again gives */
+        for(i = 0; i < 2; i++)
+        {
+            if(bankslots_sizes[i] != 0)
+                continue;
+            for(k = 0; k < 128; k++)
+                bankslots[i][0].ins[k].inst_flags = 0;
+        }
+    }
+
     if(version >= 2) /* Bank names and LSB/MSB titles */
     {
         for(i = 0; i < 2; i++)
